@@ -76,7 +76,7 @@ def mirror_tests(cfg: CFG, orders: set[str]):
     covered = set()
     for t in cfg.nodes:
         if t.kind == "test" and isinstance(getattr(t, "stmt", None), ast.If):
-            tx = norm(t.ast)
+            tx = norm(t.ast.target) if isinstance(t.ast, ast.NamedExpr) else norm(t.ast)  # `if (order := …):`
             if tx not in orders:
                 continue
             body = ast.Module(body=t.stmt.body, type_ignores=[])
@@ -257,8 +257,8 @@ def run(prog: Program, roots=None, prop="C14", rid_prefix="R-C14") -> Results:
         cfg = cfgs.setdefault(key, CFG(f.node))
         r3.instances += 1
         raises = [n for n in cfg.nodes if n.kind == "raise" and exc_name(n.ast.exc) == "KeyError"]
-        dels = [n for n in cfg.nodes if isinstance(n.ast, ast.Delete) or (isinstance(n.ast, ast.Expr) and isinstance(n.ast.value, ast.Call)
-                and callee(n.ast.value) in ("__delitem__", "remove", "pop"))]
+        dels = [n for n in cfg.nodes if isinstance(n.ast, ast.Delete) or (isinstance(n.ast, (ast.Expr, ast.Assign)) and isinstance(n.ast.value, ast.Call)
+                and callee(n.ast.value) in ("__delitem__", "remove", "pop"))]  # `removed = xs.pop(i)` deletes as well
         str_path_exits = True
         if key == "Scope.__delitem__":
             # list-style integer/slice deletion delegates to list: only the str branch is the mapping API
